@@ -22,7 +22,7 @@ COMPONENTS = E1_COMPONENTS
 ASSUMPTIONS = E1_ASSUMPTIONS + [
     "pattern forms: NAME, NAME/, single-component globs, **/NAME[/], absolute paths with optional final-component "
     "glob; relative patterns with an inner slash are not generated (their anchor is not fixed by the statement)"]
-PROBES = ["two_excluded_siblings_adjacent", "two_excluded_siblings_separated", "root_excluded",
+PROBES = ["ancestor_named_like_pattern", "two_excluded_siblings_adjacent", "two_excluded_siblings_separated", "root_excluded",
           "dir_emptied_by_exclusion", "abs_pattern", "pattern_from_cli", "pattern_from_sfile",
           "pattern_from_user_config", "excluded_dir_with_content", "nonrecursive", "auto_exclude_off"]
 
@@ -51,8 +51,22 @@ def strategy(cfg):
         auto = draw(st.sampled_from([True, True, False]))
         pool = gen.LOC_NAMES if cfg["collide_ancestor"] else SAFE_LOC
         site = gen.draw_site(draw, loc_pool=pool, tree_kw=tree_kw, auto_exclude=auto)
+        cand = None
+        if cfg["collide_ancestor"] and site.tree and draw(st.booleans()):
+            # on purpose: an ancestor directory of the input is named like something a pattern will name
+            cand = draw(st.sampled_from(sorted({posixpath.basename(r) for r in site.tree})))
+            if gen.pattern_ok(cand):
+                site.loc = site.loc + [cand]
+                site.rel = "/".join(site.loc)
+                site.proj = posixpath.join(site.rel, site.proj_name)
+            else:
+                cand = None
         pats = gen.draw_patterns(draw, site, max_patterns=cfg["max_patterns"], allow_abs=cfg["allow_abs"],
                                  allow_root=cfg["allow_root"])
+        if cand is not None:
+            form = draw(st.sampled_from([cand, "**/" + cand]))
+            if form not in pats:
+                pats.append(form)
         recursive = draw(st.sampled_from([True, True, True, False]))
         files = gen.base_files(site)
         files["cfg"] = None
@@ -135,6 +149,8 @@ def evaluate(spec, ctx):
         ch = refs.children(tree)
         matched_any = ig.root_excluded() or any(ig.self_match(r, c is None) for r, c in tree.items())
         anc_hits = ig.ancestor_component_hits()
+        if anc_hits:
+            ctx.probes["ancestor_named_like_pattern"] += 1
         if ig.root_excluded():
             ctx.probes["root_excluded"] += 1
         if any(p.startswith("/") for p in pats):
